@@ -223,6 +223,8 @@ def check(spec, ctx):
     if res.exc is not None:
         if isinstance(res.exc, (IOError, OSError)):
             raise Reject(str(res.exc)[:200])
+        if gc.refused_outside_box(res.exc, spec):
+            raise Reject("start structure with coordinates beyond its box")
         raise crash("gen_coords:crash", res.exc)
     c03.check_gro_listing(spec, res)
     fudge = spec["opts"].get("bfudge", 0.4)
